@@ -163,4 +163,34 @@ func init() {
 	mut("C05", "idxWriter.Close collects only transfers of failed closes", wsgo,
 		"		} else if transfer.Occurred() {\n			update.Transfers = append(update.Transfers, transfer)\n		}\n	}\n	return update, err\n}\n\nfunc invalidDataTypeError",
 		"			if transfer.Occurred() {\n				update.Transfers = append(update.Transfers, transfer)\n			}\n		}\n	}\n	return update, err\n}\n\nfunc invalidDataTypeError", "C05.R3.transfers")
+
+	// ---------------- C20
+	mut("C20", "relay receives the unfiltered frame", wsgo,
+		"			frame: req.Frame.ExcludeKeys(excludeUnauthorized),", "			frame: req.Frame,", "C20.R1.relay")
+	mut("C20", "virtual writes use their own exclusion list", wsgo,
+		"		if req.Frame, err = w.virtual.write(&excludeUnauthorized, req.Frame); err != nil {",
+		"		var scratch []ChannelKey\n		if req.Frame, err = w.virtual.write(&scratch, req.Frame); err != nil {", "C20.R1.relay")
+	mut("C20", "relay fed regardless of writer mode", wsgo,
+		"	if w.Mode.Stream() {\n		w.relay.Inlet() <- relayResponse{", "	if w.Mode.Stream() || true {\n		w.relay.Inlet() <- relayResponse{", "C20.R1.relay")
+	mut("C20", "unauthorized data series not excluded", wsgo,
+		"				return fr, accumulatedErr\n			}\n			*excludeUnauthorized = append(*excludeUnauthorized, key)\n			continue\n		}\n		if !incrementedSampleCount {",
+		"				return fr, accumulatedErr\n			}\n			continue\n		}\n		if !incrementedSampleCount {", "C20.R1.exclude")
+	mut("C20", "lost index no longer excludes its data channels", wsgo,
+		"		if idxUnauthorized {\n			*excludeUnauthorized = append(*excludeUnauthorized, key)\n			continue\n		}", "		if idxUnauthorized {\n			continue\n		}", "C20.R1.exclude")
+	mut("C20", "virtual unauthorized series not excluded", wsgo,
+		"			*filterUnauthorized = append(*filterUnauthorized, k)\n			continue", "			continue", "C20.R1.exclude")
+	mut("C20", "streamer forwards the whole relay frame", "cesium/streamer.go",
+		"s.translateResponse(StreamerResponse{Frame: filtered, Group: rf.group}),", "s.translateResponse(StreamerResponse{Frame: rf.frame, Group: rf.group}),", "C20.R2.filter")
+	mut("C20", "streamer sends empty frames", "cesium/streamer.go",
+		"if filtered := rf.frame.KeepKeys(s.Channels); !filtered.Empty() {", "if filtered := rf.frame.KeepKeys(s.Channels); true {", "C20.R2.filter")
+	mut("C20", "streamer forgets to disconnect", "cesium/streamer.go",
+		"		defer disconnect()\n", "		_ = disconnect\n", "C20.R3.pairing")
+	mut("C20", "disconnect drains after Disconnect", "cesium/relay.go",
+		"		wg.Go(func() {\n			confluence.Drain(frames)\n		})\n		r.delta.Disconnect(frames)\n		wg.Wait()",
+		"		r.delta.Disconnect(frames)\n		wg.Go(func() {\n			confluence.Drain(frames)\n		})\n		wg.Wait()", "C20.R3.pairing")
+	mut("C20", "Disconnect edits the fan-out list directly", "x/go/confluence/delta.go",
+		"func (d *DynamicDeltaMultiplier[V]) Disconnect(inlets ...Inlet[V]) {\n	d.disconnections <- inlets\n}",
+		"func (d *DynamicDeltaMultiplier[V]) Disconnect(inlets ...Inlet[V]) {\n	d.disconnect(inlets)\n}", "C20.R4.confine")
+	mut("C20", "timer re-armed only once per value", "x/go/confluence/source.go",
+		"		case <-timer.C:\n			timer.Reset(t)\n			timedOutInlet = i", "		case <-timer.C:\n			timedOutInlet = i", "C20.R5.rearm")
 }
